@@ -25,7 +25,7 @@ ASSUMPTIONS = [
     "the client's last flight) is recorded, not judged",
 ]
 NONTRIVIAL = ["negotiated", "outcome", "binding"]
-DEADLINE = {"quick": 60, "thorough": 900}
+DEADLINE = {"quick": 120, "thorough": 900}
 
 SKEYS = ["rsa", "rsa", "rsapss", "ecdsa256", "ecdsa384", "ecdsa521", "bp256",
          "ed25519", "ed448", "dsa"]
